@@ -36,7 +36,7 @@ ParkPoints == {"none",
 WParks == {"none", "call.stored", "write.refused"}
 \* what the other parties do while the goroutine is parked (in this order, each asynchronously)
 Durings == {<<>>, <<"call">>, <<"close">>, <<"call", "close">>, <<"close", "call">>, <<"call", "call">>,
-            <<"up">>, <<"call", "up">>, <<"up", "call">>, <<"hookbad">>, <<"call", "hookbad">>}
+            <<"up">>, <<"call", "up">>, <<"up", "call">>, <<"hookbad">>, <<"call", "hookbad">>, <<"hookbad", "call">>}
 
 Loss == [kind : {"lossrace"}, loss : {"cut", "down"}, park : ParkPoints, wpark : WParks, during : Durings, after : {"stay", "up"}]
 Close == [kind : {"closerace"}, loss : {"none"}, park : {"none"}, wpark : {"none"}, during : {<<"call">>, <<"call", "call">>, <<"cut">>, <<"call", "cut">>}, after : {"stay"}]
